@@ -270,22 +270,19 @@ func nameRules(c *Ctx, want map[string]bool) {
 		}
 		// getElementPath prefix dispatch
 		if fi := c.P.MustFunc(R, "R15a", "disk.(*diskCache).getElementPath"); fi != nil {
-			got := map[string]string{}
-			ast.Inspect(fi.Decl.Body, func(n ast.Node) bool {
-				is, ok := n.(*ast.IfStmt)
-				if !ok {
-					return true
+			got, dflt := prefixTable(c, fi, func(e ast.Expr) (string, bool) {
+				if t := info.TypeOf(e); t != nil && strings.HasSuffix(t.String(), "cache.EntryKind") {
+					return exprStr(e), true
 				}
-				if call, ok := is.Cond.(*ast.CallExpr); ok && fullCalleeName(info, call) == "strings.HasPrefix" {
-					p, _ := constString(info, call.Args[1])
-					for _, st := range is.Body.List {
-						if as, ok := st.(*ast.AssignStmt); ok && exprStr(as.Lhs[0]) == "kind" {
-							got[p] = exprStr(as.Rhs[0])
-						}
-					}
-				}
-				return true
+				return "", false
 			})
+			// an arm may be left to the default (the kind a key has when no other prefix matches)
+			for _, p := range []string{"cas", "ac", "raw"} {
+				if _, ok := got[p]; !ok && dflt != "" {
+					got[p] = dflt
+					dflt = ""
+				}
+			}
 			ok := got["cas"] == "cache.CAS" && got["ac"] == "cache.AC" && got["raw"] == "cache.RAW" && len(got) == 3
 			R.Check(ok, "R15a", c.Cfg+"getElementPath:prefix-table", c.P.Pos(fi.Decl.Pos()), "getElementPath maps the key prefixes cas/ac/raw back to their kinds", fmt.Sprintf("prefix table is %v", got))
 			// the path is built from FileLocation with the entry's own fields
@@ -303,26 +300,13 @@ func nameRules(c *Ctx, want map[string]bool) {
 			R.Check(okLoc, "R15a", c.Cfg+"getElementPath:location", c.P.Pos(fi.Decl.Pos()), "getElementPath is dir + FileLocation(kind, value.legacy, hash, value.size, value.random)", "getElementPath does not build the path from the entry's own fields")
 		}
 		if scan != nil {
+			got0, _ := prefixTable(c, scan, func(e ast.Expr) (string, bool) { return constString(info, e) })
 			got := map[string]string{}
-			ast.Inspect(scan.Decl.Body, func(n ast.Node) bool {
-				is, ok := n.(*ast.IfStmt)
-				if !ok {
-					return true
+			for p, v := range got0 {
+				if strings.HasSuffix(p, ".v2/") {
+					got[p] = v
 				}
-				if call, ok := is.Cond.(*ast.CallExpr); ok && fullCalleeName(info, call) == "strings.HasPrefix" && len(call.Args) == 2 {
-					p, isC := constString(info, call.Args[1])
-					if isC && strings.HasSuffix(p, ".v2/") {
-						for _, st := range is.Body.List {
-							if as, ok := st.(*ast.AssignStmt); ok && len(as.Lhs) == 1 && len(as.Rhs) == 1 {
-								if v, ok := constString(info, as.Rhs[0]); ok {
-									got[p] = v
-								}
-							}
-						}
-					}
-				}
-				return true
-			})
+			}
 			ok := len(got) == 3
 			for k, v := range want3 {
 				if got[kinds["DirName"][k]+"/"] != v+"/" {
@@ -971,4 +955,133 @@ func submatchVar(fi *FuncInfo) types.Object {
 		return true
 	})
 	return out
+}
+
+// helperBodies returns the body of fi followed by the bodies of the unexported functions of its
+// package that it (transitively) calls: what a refactoring may have split off.
+func helperBodies(c *Ctx, fi *FuncInfo) []*ast.BlockStmt {
+	bodies := []*ast.BlockStmt{fi.Decl.Body}
+	seen := map[string]bool{fi.Key: true}
+	for i := 0; i < len(bodies) && i < 10; i++ {
+		for _, call := range callsIn(bodies[i], true) {
+			h := c.P.Func(calleeKey(fi.Pkg.TypesInfo, call))
+			if h == nil || seen[h.Key] || h.Pkg != fi.Pkg || ast.IsExported(h.Decl.Name.Name) || h.Decl.Body == nil {
+				continue
+			}
+			seen[h.Key] = true
+			bodies = append(bodies, h.Decl.Body)
+		}
+	}
+	return bodies
+}
+
+// prefixTable extracts a table "string prefix -> value" written as a chain of
+// `if strings.HasPrefix(x, P) { v = V }` / `{ return V }` statements or as the cases of a tag-less
+// switch, in fi or in a helper split off it.  dflt is the value of a default clause or of the
+// assignment / return that applies when no prefix matches ("" if there is none or several).
+func prefixTable(c *Ctx, fi *FuncInfo, value func(e ast.Expr) (string, bool)) (map[string]string, string) {
+	info := fi.Pkg.TypesInfo
+	got := map[string]string{}
+	dflts := map[string]bool{}
+	valueOf := func(list []ast.Stmt) (string, bool) {
+		for _, st := range list {
+			switch st := st.(type) {
+			case *ast.AssignStmt:
+				if len(st.Lhs) == 1 && len(st.Rhs) == 1 {
+					if v, ok := value(st.Rhs[0]); ok {
+						return v, true
+					}
+				}
+			case *ast.ReturnStmt:
+				for _, r := range st.Results {
+					if v, ok := value(r); ok {
+						return v, true
+					}
+				}
+			}
+		}
+		return "", false
+	}
+	prefixOf := func(e ast.Expr) (string, bool) {
+		call, ok := ast.Unparen(e).(*ast.CallExpr)
+		if !ok || fullCalleeName(info, call) != "strings.HasPrefix" || len(call.Args) != 2 {
+			return "", false
+		}
+		return constString(info, call.Args[1])
+	}
+	for _, body := range helperBodies(c, fi) {
+		tabled := false
+		ast.Inspect(body, func(n ast.Node) bool {
+			switch n := n.(type) {
+			case *ast.IfStmt:
+				if p, ok := prefixOf(n.Cond); ok {
+					if v, ok := valueOf(n.Body.List); ok {
+						got[p] = v
+						tabled = true
+					}
+					if eb, ok := n.Else.(*ast.BlockStmt); ok {
+						if v, ok := valueOf(eb.List); ok {
+							dflts[v] = true
+						}
+					}
+				}
+			case *ast.SwitchStmt:
+				if n.Tag != nil {
+					return true
+				}
+				for _, cs := range n.Body.List {
+					cc := cs.(*ast.CaseClause)
+					if len(cc.List) == 0 {
+						if v, ok := valueOf(cc.Body); ok {
+							dflts[v] = true
+						}
+						continue
+					}
+					for _, e := range cc.List {
+						if p, ok := prefixOf(e); ok {
+							if v, ok := valueOf(cc.Body); ok {
+								got[p] = v
+								tabled = true
+							}
+						}
+					}
+				}
+			}
+			return true
+		})
+		if tabled {
+			// the value that stands when no arm matched: an assignment or declaration before the
+			// chain, or the return that follows it, at the top level of that body
+			for _, st := range body.List {
+				switch st := st.(type) {
+				case *ast.AssignStmt, *ast.ReturnStmt:
+					if v, ok := valueOf([]ast.Stmt{st}); ok {
+						dflts[v] = true
+					}
+				case *ast.DeclStmt:
+					if gd, ok := st.Decl.(*ast.GenDecl); ok {
+						for _, sp := range gd.Specs {
+							if vs, ok := sp.(*ast.ValueSpec); ok {
+								for _, e := range vs.Values {
+									if v, ok := value(e); ok {
+										dflts[v] = true
+									}
+								}
+							}
+						}
+					}
+				}
+			}
+		}
+	}
+	for _, v := range got {
+		delete(dflts, v)
+	}
+	dflt := ""
+	if len(dflts) == 1 {
+		for v := range dflts {
+			dflt = v
+		}
+	}
+	return got, dflt
 }
